@@ -437,6 +437,9 @@ func (w *World) exchangeNoNotify(entity Entity, add []ID, rem []ID, relation ID,
 	mask := w.getExchangeMask(oldMask, add, rem)
 
 	if hasRelation {
+		if !target.IsZero() && !w.entityPool.Alive(target) {
+			panic("can't make a dead entity a relation target")
+		}
 		if !mask.Get(relation) {
 			tp, _ := w.registry.ComponentType(relation.id)
 			panic(fmt.Sprintf("can't add relation: resulting entity has no component %s", tp.Name()))
@@ -613,6 +616,9 @@ func (w *World) exchangeArch(oldArch *archetype, oldArchLen uint32, add []ID, re
 	oldIDs := oldArch.Components()
 
 	if hasRelation {
+		if !target.IsZero() && !w.entityPool.Alive(target) {
+			panic("can't make a dead entity a relation target")
+		}
 		if !mask.Get(relation) {
 			tp, _ := w.registry.ComponentType(relation.id)
 			panic(fmt.Sprintf("can't add relation: resulting entity has no component %s", tp.Name()))
